@@ -40,6 +40,7 @@ let parse_case (toks : string list) : case =
   | ["sign"; tk; k; m; m2; k2] -> CSign (n_of_string tk, bytes_of_hex k, bytes_of_hex m, bytes_of_hex m2, bytes_of_hex k2)
   | ["wit"; wk; h; k; dp; mg] -> CWit (n_of_string wk, bytes_of_hex h, bytes_of_hex k, opt_b dp, opt_n mg)
   | "derive" :: root :: _n :: path -> CDerive (bytes_of_hex root, List.map n_of_string path)
+  | "pubderive" :: xpub :: _n :: path -> CPubDerive (bytes_of_hex xpub, List.map n_of_string path)
   | ["bip39"; e; pw] -> CBip39 (bytes_of_hex e, bytes_of_hex pw)
   | ["x128"; k] -> CX128 (bytes_of_hex k)
   | ["enc3"; tp; ts; tn; td] -> CEnc3 (bytes_of_hex tp, bytes_of_hex ts, bytes_of_hex tn, bytes_of_hex td)
@@ -58,6 +59,7 @@ let parse_field s =
 
 let class_name n = match int_of_n n with
   | 1 -> "C12-xprv128-length" | 2 -> "C12-hash-bech32-padding" | 3 -> "C12-extended-scalar-range" | 4 -> "C12-emip3-empty-plaintext"
+  | 5 -> "C12-bit253-root-child-overflow"
   | _ -> "-"
 let show_verdict = function
   | Holds -> "holds" | FailsKnown n -> "fails:" ^ class_name n | FailsUnknown -> "fails:-" | NA -> "na"
@@ -71,11 +73,32 @@ let () = run_driver (fun toks impl ->
       | None -> ()) table;
   (* the first token joins the kind with its numeric selectors (dec:4:3) *)
   let args = (match args with f :: r -> String.split_on_char ':' f @ r | [] -> []) in
+  let split_on sep l =
+    let rec go cur acc = function
+      | [] -> List.rev (List.rev cur :: acc)
+      | x :: r when x = sep -> go [] (List.rev cur :: acc) r
+      | x :: r -> go (x :: cur) acc r in
+    go [] [] l in
+  let expand = function f :: r -> String.split_on_char ':' f @ r | [] -> [] in
+  let parse_io toks = List.map parse_field (match toks with "ok" :: r -> r | l -> l) in
+  match args with
+  | "seq" :: _name :: rest ->
+    (* a sequence of calls made one after the other in one process; steps and their observations are separated by `;` *)
+    let steps = List.map (fun st -> parse_case (expand st)) (split_on ";" rest) in
+    let m = "seq " ^ String.concat " ; " (List.map show_obs (model_seq table_prims steps)) in
+    let v = match impl with
+      | [] -> "na"
+      | "seq" :: r -> (match (try Some (List.map parse_io (split_on ";" r)) with Failure _ -> None) with
+          | Some ios -> show_verdict (judge_seq table_prims steps ios)
+          | None -> "fails:-")
+      | _ -> "fails:-" in
+    (m, v)
+  | _ ->
   let c = parse_case args in
   let m = show_obs (model_obs table_prims c) in
   let v = match impl with
     | [] -> "na"
-    | _ -> (match (try Some (List.map parse_field (match impl with "ok" :: r -> r | l -> l)) with Failure _ -> None) with
+    | _ -> (match (try Some (parse_io impl) with Failure _ -> None) with
         | Some io -> show_verdict (judge table_prims c io)
         | None -> "fails:-") in
   (m, v))
